@@ -115,6 +115,128 @@ fn expect(f: Fmt, op: &Op) -> Result<Option<BigInt>, ()> {
     }
 }
 
+
+/// points within `span` steps of `anchor` on the grid of step d: exact multiples, multiples +-1,
+/// exact ties, ties +-1 (only those inside the range of f)
+fn family_points(f: Fmt, d: &BigInt, anchor: &BigInt, span: i64) -> Vec<BigInt> {
+    let base = floor_div(anchor, d);
+    let half: BigInt = d / BigInt::from(2);
+    let mut v: Vec<BigInt> = Vec::new();
+    for j in -span..=span {
+        let m = (&base + BigInt::from(j)) * d;
+        for p in [m.clone(), &m + 1, &m - 1, &m + &half, &m + &half + 1, &m + &half - 1] {
+            if f.fits(&p) && !v.contains(&p) {
+                v.push(p);
+            }
+        }
+    }
+    // the limits themselves and their neighbours
+    for p in [anchor.clone(), anchor + 1, anchor - 1] {
+        if f.fits(&p) && !v.contains(&p) {
+            v.push(p);
+        }
+    }
+    v
+}
+
+/// The deterministic boundary family (identical for every seed): for both types, every number of
+/// decimal places and every mode, values within two steps of MIN and of MAX and one step of 0 (exact
+/// multiples, multiples +-1, exact ties, ties +-1) - this contains every case where exactly one of the
+/// two neighbouring multiples is unrepresentable - and the same around the limits for floor, ceiling,
+/// for_withdrawal and checked_truncate.
+fn boundary_family() -> Vec<(Fmt, Op)> {
+    let mut out = Vec::new();
+    for f in FMTS {
+        for dp in 0..=f.scale() {
+            let d = pow10(f.scale() - dp);
+            let mut pts = family_points(f, &d, &f.min(), 2);
+            pts.extend(family_points(f, &d, &f.max(), 2));
+            pts.extend(family_points(f, &d, &BigInt::zero(), 1));
+            for m in 0..7 {
+                for x in &pts {
+                    out.push((f, Op::Round(x.clone(), dp as i32, m)));
+                }
+            }
+        }
+        let one = f.one();
+        let mut pts = family_points(f, &one, &f.min(), 2);
+        pts.extend(family_points(f, &one, &f.max(), 2));
+        pts.extend(family_points(f, &one, &BigInt::zero(), 1));
+        for x in &pts {
+            out.push((f, Op::Floor(x.clone())));
+            out.push((f, Op::Ceil(x.clone())));
+        }
+    }
+    // for_withdrawal (Decimal): every divisibility, every mode, one step around the limits
+    for dv in 0..=18u8 {
+        let d = pow10(18 - dv as u32);
+        let mut pts = family_points(Fmt::Dec, &d, &Fmt::Dec.min(), 1);
+        pts.extend(family_points(Fmt::Dec, &d, &Fmt::Dec.max(), 1));
+        for m in 0..7 {
+            for x in &pts {
+                out.push((Fmt::Dec, Op::Withdraw(x.clone(), dv, Some(m))));
+            }
+        }
+        out.push((Fmt::Dec, Op::Withdraw(Fmt::Dec.min(), dv, None)));
+    }
+    // checked_truncate: around the PreciseDecimal limits (rounding overflows) and around the images of the
+    // Decimal limits (narrowing overflows), and around 0
+    let d18 = pow10(18);
+    let mut pts = family_points(Fmt::PDec, &d18, &Fmt::PDec.min(), 2);
+    pts.extend(family_points(Fmt::PDec, &d18, &Fmt::PDec.max(), 2));
+    pts.extend(family_points(Fmt::PDec, &d18, &(Fmt::Dec.min() * &d18), 2));
+    pts.extend(family_points(Fmt::PDec, &d18, &(Fmt::Dec.max() * &d18), 2));
+    pts.extend(family_points(Fmt::PDec, &d18, &BigInt::zero(), 1));
+    for m in 0..7 {
+        for p in &pts {
+            out.push((Fmt::PDec, Op::Truncate(p.clone(), m)));
+        }
+    }
+    out
+}
+
+/// class of a rounding case for the distribution / floors: which limit it is next to, what kind of
+/// point it is, whether exactly one neighbouring multiple is unrepresentable, and the expected answer
+fn family_class(f: Fmt, x: &BigInt, d: &BigInt, m: usize, expect_some: bool) -> Option<String> {
+    let lo = floor_div(x, d) * d;
+    let hi = if &lo == x { lo.clone() } else { &lo + d };
+    let two_d = d * 2;
+    let side = if (x - f.min()) <= two_d {
+        "min"
+    } else if (f.max() - x) <= two_d {
+        "max"
+    } else if x.abs() <= *d {
+        "zero"
+    } else {
+        return None;
+    };
+    let kind = if &lo == x {
+        "multiple"
+    } else if (x - &lo) * 2 == *d {
+        "tie"
+    } else if { let t: BigInt = (x - &lo) * 2 - d; t.abs() <= BigInt::from(2) } {
+        "neartie"
+    } else {
+        "other"
+    };
+    let rep = match (f.fits(&lo), f.fits(&hi)) {
+        (true, true) => "bothrep",
+        (false, true) => "lounrep",
+        (true, false) => "hiunrep",
+        (false, false) => "nonerep",
+    };
+    Some(format!("fam_{}_{}_{}_{}_{}", side, kind, rep, MODES[m].1, if expect_some { "some" } else { "none" }))
+}
+
+/// floors for the boundary classes: the counts the deterministic family alone produces (seed independent;
+/// regenerate with `c25 --cases 0` and tools in the comment of c25_family_floors.in)
+const FAMILY_FLOORS: &[(&str, u64)] = &include!("c25_family_floors.in");
+fn family_floors(report: &mut Report) {
+    for (k, m) in FAMILY_FLOORS {
+        report.floor(k, *m);
+    }
+}
+
 fn gen_x(rng: &mut Rng, f: Fmt, bnd: &[BigInt], d: &BigInt) -> BigInt {
     let half: BigInt = d / BigInt::from(2);
     let z = match rng.below(10) {
@@ -153,20 +275,23 @@ fn main() {
     let mut report = Report::new(
         "C25",
         args.seed,
-        "checked_round over all 7 modes x all decimal-place counts (plus out-of-range counts), floor, ceiling, for_withdrawal, \
-         checked_truncate; values: ties, multiples +-1, range limits, uniform bit length; non-trivial = value not already at the \
-         requested precision; distinct by operation text",
+        "deterministic boundary family (every seed): both types x every decimal-place count x all 7 modes x values within 2 steps of MIN and MAX and 1 step of 0 \
+         (multiples, multiples +-1, exact ties, ties +-1; includes every case where exactly one neighbouring multiple is unrepresentable), same around the limits for \
+         floor/ceiling/for_withdrawal/checked_truncate; then random: checked_round over all modes x all places (plus out-of-range counts), floor, ceiling, for_withdrawal, \
+         checked_truncate on ties, multiples +-1, range limits, uniform bit length; non-trivial = value not already at the requested precision; distinct by operation text",
     );
     let mut cw = CaseWriter::new("RV.Corr.C25_run RV.Lib.DecCore RV.Model.C25_Round", "check");
     let root = Rng::new(args.seed);
     let bnds = [boundaries(Fmt::Dec), boundaries(Fmt::PDec)];
-    for i in 0..args.cases {
+    let family = boundary_family();
+    let nfam = family.len();
+    for i in 0..(nfam + args.cases) {
         let mut rng = root.fork(i as u64);
         let f = FMTS[rng.usize_below(2)];
         let bnd = &bnds[if f == Fmt::Dec { 0 } else { 1 }];
         let m = (i + rng.usize_below(7)) % 7;
         let kind = rng.below(12);
-        let (f, op) = match kind {
+        let (f, op) = if i < nfam { family[i].clone() } else { match kind {
             0 => {
                 let x = gen_x(&mut rng, f, bnd, &f.one());
                 (f, if rng.bool() { Op::Floor(x) } else { Op::Ceil(x) })
@@ -199,10 +324,37 @@ fn main() {
                 let x = gen_x(&mut rng, f, bnd, &pow10(f.scale() - dpc));
                 (f, Op::Round(x, dp, m))
             }
-        };
+        } };
         let out = run_impl(f, &op);
         let exp = expect(f, &op);
         let canon = format!("{} {}", f.name(), op_coq(&op));
+        // boundary classes (counted for every case, family or random)
+        {
+            let some = matches!(exp, Ok(Some(_)));
+            let cls = match &op {
+                Op::Round(x, dp, mm) if *dp >= 0 && *dp <= f.scale() as i32 => family_class(f, x, &pow10(f.scale() - *dp as u32), *mm, some),
+                Op::Floor(x) => family_class(f, x, &f.one(), 1, some).map(|c| format!("floor_{}", c)),
+                Op::Ceil(x) => family_class(f, x, &f.one(), 0, some).map(|c| format!("ceiling_{}", c)),
+                Op::Withdraw(x, dv, Some(mm)) if *dv <= 18 => family_class(Fmt::Dec, x, &pow10(18 - *dv as u32), *mm, some).map(|c| format!("withdraw_{}", c)),
+                Op::Truncate(p, mm) => {
+                    // next to the PreciseDecimal limits or to the images of the Decimal limits
+                    let d18 = pow10(18);
+                    let near = |lim: BigInt| (p - lim).abs() <= &d18 * 2;
+                    let side = if near(Fmt::PDec.min()) || near(Fmt::PDec.max()) {
+                        Some("pdeclimit")
+                    } else if near(Fmt::Dec.min() * &d18) || near(Fmt::Dec.max() * &d18) {
+                        Some("declimit")
+                    } else {
+                        None
+                    };
+                    side.map(|sd| format!("truncate_{}_{}_{}", sd, MODES[*mm].1, if some { "some" } else { "none" }))
+                }
+                _ => None,
+            };
+            if let Some(c) = cls {
+                report.count(&c);
+            }
+        }
         let changed = match (&op, &out) {
             (Op::Round(x, ..), Out::Ok(r)) | (Op::Floor(x), Out::Ok(r)) | (Op::Ceil(x), Out::Ok(r)) | (Op::Withdraw(x, ..), Out::Ok(r)) => x != r,
             (Op::Truncate(p, _), Out::Ok(r)) => &(r * pow10(18)) != p,
@@ -250,6 +402,8 @@ fn main() {
         }
         cw.push(format!("({}, {}, {})", f.coq(), op_coq(&op), out.coq()));
     }
+    report.extra.insert("boundary_family_cases".into(), json!(nfam));
+    family_floors(&mut report);
     let n = args.cases as u64;
     report.floor("value_changed_by_rounding", n / 4);
     report.floor("exact_tie", n / 40);
